@@ -319,9 +319,19 @@ impl<'a> Judge<'a> {
         // ---- (iv) an untrusted NXDOMAIN does not end the search
         if okind == "nx-untrusted" {
             self.rep.count("nx_untrusted_final");
-            let tc_seen = evs.iter().any(|e| e.kind == Kind::ReplyTrunc);
+            // without exact attribution (a creator cancelled: the shared lookup this caller joined
+            // may have started before the caller's own window) any earlier TC=1 for this key counts
+            let tc_seen = if exact {
+                evs.iter().any(|e| e.kind == Kind::ReplyTrunc)
+            } else {
+                out.log.iter().any(|e| e.kind == Kind::ReplyTrunc && e.q == c.q as i32 && e.t <= win.1)
+            };
             for (i, s) in scn.servers.iter().enumerate() {
-                let attempted = evs.iter().any(|e| upstream(e.kind) && e.server == i);
+                let attempted = if exact {
+                    evs.iter().any(|e| upstream(e.kind) && e.server == i)
+                } else {
+                    out.log.iter().any(|e| upstream(e.kind) && e.server == i && e.q == c.q as i32 && e.t <= win.1)
+                };
                 let udp_only = s.tcp.is_none();
                 if !attempted && !(udp_only && tc_seen) {
                     let cl = match classify(s, scn.timeout) {
